@@ -162,7 +162,7 @@ func main() {
 	case "gen":
 		n := 3000
 		if a.Tier == "thorough" {
-			n = 200000
+			n = 80000
 		}
 		if a.N > 0 {
 			n = a.N
